@@ -493,6 +493,20 @@ struct MemberSwapOnly {
     MemberSwapOnly(MemberSwapOnly&&) = delete;
     void swap(MemberSwapOnly&);
 };
+// swap overloads between two DIFFERENT types with asymmetric exception specifications / only one argument order
+// (added after seeded breakage c15_nothrow_swappable_with_one_order: is_nothrow_swappable_with tested
+// noexcept(swap(t,u)) only, not also swap(u,t))
+struct SwapA { };
+struct SwapB { };
+void swap(SwapA&, SwapB&) noexcept;
+void swap(SwapB&, SwapA&) noexcept(false);
+struct SwapC { };
+struct SwapD { };
+void swap(SwapC&, SwapD&) noexcept;
+void swap(SwapD&, SwapC&) noexcept;
+struct SwapE { };
+struct SwapF { };
+void swap(SwapE&, SwapF&) noexcept; // one order only: not swappable_with
 struct ThrowingAdlSwap {
     friend void swap(ThrowingAdlSwap&, ThrowingAdlSwap&) noexcept(false);
 };
